@@ -15,7 +15,7 @@ RULE = ('operation histories over the public Response API (46 standard headers, 
         'text/html/json/raw payloads, drop_content, every status of the table); non-trivial = at least 3 operations and a '
         'removal or a re-set of a header that was set before, or a body change after a body was set; distinct by canonical JSON')
 ASSUMPTIONS = ['operation alphabet = public API except direct writes to Content-Length / Transfer-Encoding (they belong to the body setters)',
-               'header names and values carry no CR/LF; custom names are not standard names (DESIGN 6.0)',
+               'header names and values carry no CR/LF; one history reaches a registered field either through its typed setter or by name through `.x`, not both (the two stores are separate, DESIGN 6.0)',
                'Content::Stream (chunked) is covered by C17, WebSocket upgrade is out of scope']
 
 # independent table: the field name each typed setter stands for (RFC 9110 / Fetch / CSP / WebSocket registrations)
@@ -80,13 +80,20 @@ def _cookie(rng):
 def _case(rng):
     ops = []
     pool = rng.sample(USER_STD, rng.choice([1, 2, 3, 6]))      # few names => many re-sets and removals of the same header
+    # a registered field name given to the by-name API `.x(name, ..)`: in a history that does not also reach that field through its typed setter
+    # (the two stores are separate, DESIGN 6.0) it must behave like any other name: set, appended to, removed — by name
+    xnames = list(CUSTOM)
+    if rng.random() < 0.25:
+        free = [STD_NAMES[v] for v in USER_STD if v not in pool and v not in ('Date', 'Location')]
+        for n in rng.sample(free, rng.choice([1, 2])):
+            xnames += [rng.choice([n, n.lower(), n.upper()])] * 3
     for _ in range(rng.choice([0, 1, 2, 4, 8, 16, 40])):
         k = rng.random()
         if k < 0.42:
             h = rng.choice(pool)
             ops.append(rng.choice([['set', h, _val(rng)], ['sset', h, _val(rng)], ['remove', h], ['append', h, _val(rng)], ['remove', h], ['set', h, _val(rng)]]))
         elif k < 0.70:
-            c = hx(rng.choice(CUSTOM))
+            c = hx(rng.choice(xnames))
             ops.append(rng.choice([['xset', c, _val(rng)], ['xremove', c], ['xappend', c, _val(rng)], ['xremove', c]]))
         elif k < 0.78:
             ops.append(_cookie(rng))
@@ -118,6 +125,9 @@ def corpus():
         mk(200, [['text', hx('abc')], ['drop'], ['html', hx('<p>')]]),
         mk(200, [['xset', hx('X-A'), '31'], ['xset', hx('Y'), '32'], ['xset', hx('X-Bb'), '33'], ['xremove', hx('X-A')], ['xappend', hx('X-Bb'), '34'], ['xset', hx('X-A'), '35']]),
         mk(200, [['set', 'ContentEncoding', hx('gzip')]]),
+        # a registered field name through the by-name API: set and removed by name
+        mk(200, [['xset', hx('Cache-Control'), hx('no-store')], ['xremove', hx('Cache-Control')]]),
+        mk(200, [['xset', hx('server'), hx('a')], ['xappend', hx('server'), hx('b')], ['xset', hx('X-A'), '31'], ['xremove', hx('server')], ['xset', hx('VIA'), hx('1.1 p')]]),
         mk(200, [['cookie', hx('id'), hx('4 2'), {'path': hx('/'), 'same_site': 'Strict', 'max_age': 120}], ['cookie', hx('id'), hx('x'), {}]]),
     ] + [mk(st, [['set', h, hx('v')]]) for st, h in zip([200] * len(USER_STD), USER_STD)]
 
